@@ -164,6 +164,38 @@ func (g *gen) prelude() []zn.Stmt {
 			show("外-in", v("N")),
 			ret(bin("+", &zn.Call{Name: "内", Args: []zn.Expr{v("N")}}, &zn.Member{Root: &zn.New{Class: "内类"}, Name: "值"})),
 		}},
+		// methods and types declared inside a branch, a loop pass, a handler: known in that
+		// block (from their declaration on), gone when it ends
+		&zn.FuncDef{Name: "嵌", Params: []string{"N"}, Body: []zn.Stmt{
+			&zn.Let{Names: []string{"和"}, E: num(0)},
+			&zn.If{Conds: []zn.Expr{bin(">", v("N"), num(0))}, Blocks: [][]zn.Stmt{{
+				&zn.FuncDef{Name: "支", Params: []string{"M"}, Body: []zn.Stmt{ret(bin("+", v("M"), num(100)))}},
+				&zn.ClassDef{Name: "支类", Props: []zn.Prop{{Name: "值", Init: num(8)}}},
+				&zn.CtorDef{Class: "支类", Params: []string{"初"}, Body: []zn.Stmt{&zn.ExprStmt{E: &zn.Assign{Target: &zn.This{Name: "值"}, E: v("初")}}}},
+				&zn.ExprStmt{E: &zn.Assign{Target: v("和"), E: bin("+", bin("+", v("和"), &zn.Call{Name: "支", Args: []zn.Expr{v("N")}}), &zn.Member{Root: &zn.New{Class: "支类", Args: []zn.Expr{num(8)}}, Name: "值"})}},
+			}}, Else: []zn.Stmt{
+				&zn.FuncDef{Name: "支", Params: []string{"M"}, Body: []zn.Stmt{ret(bin("-", v("M"), num(100)))}},
+				&zn.ExprStmt{E: &zn.Assign{Target: v("和"), E: &zn.Call{Name: "支", Args: []zn.Expr{v("N")}}}},
+			}},
+			&zn.ForEach{Names: []string{"项"}, E: &zn.ListLit{Items: []zn.Expr{num(1), num(2)}}, Body: []zn.Stmt{
+				&zn.FuncDef{Name: "环", Params: []string{"M"}, Body: []zn.Stmt{ret(bin("*", v("M"), num(3)))}},
+				&zn.ExprStmt{E: &zn.Assign{Target: v("和"), E: bin("+", v("和"), &zn.Call{Name: "环", Args: []zn.Expr{v("项")}})}},
+			}},
+			show("嵌-sum", v("N"), v("和")),
+			ret(v("和")),
+		}},
+		&zn.FuncDef{Name: "嵌救", Params: []string{"N"}, Body: []zn.Stmt{ret(bin("/", v("N"), num(0)))},
+			Catches: []zn.Catch{{Class: "异常", Body: []zn.Stmt{
+				&zn.FuncDef{Name: "救", Params: []string{"M"}, Body: []zn.Stmt{ret(bin("+", v("M"), num(1000)))}},
+				ret(&zn.Call{Name: "救", Args: []zn.Expr{v("N")}}),
+			}}}},
+		&zn.FuncDef{Name: "嵌漏", Params: []string{"N"}, Body: []zn.Stmt{
+			&zn.If{Conds: []zn.Expr{&zn.BoolLit{V: true}}, Blocks: [][]zn.Stmt{{
+				&zn.FuncDef{Name: "漏支", Params: []string{"M"}, Body: []zn.Stmt{ret(v("M"))}},
+				show("嵌漏-in", &zn.Call{Name: "漏支", Args: []zn.Expr{v("N")}}),
+			}}},
+			ret(&zn.Call{Name: "漏支", Args: []zn.Expr{v("N")}}),
+		}},
 		// 输出 from inside a loop over a collection: the call yields THAT value, and nothing of
 		// the loop runs afterwards (no later entry is visited, no later 输出 replaces the value)
 		&zn.FuncDef{Name: "查", Params: []string{"集", "标"}, Body: []zn.Stmt{
@@ -274,7 +306,7 @@ func (g *gen) mainOps() []zn.Stmt {
 	fresh := 0
 	nm := func(p string) string { fresh++; return fmt.Sprintf("%s%d", p, fresh) }
 	for i := 0; i < n; i++ {
-		switch g.pick(27, "op") {
+		switch g.pick(30, "op") {
 		case 25, 26: // one call site, different callees: through an input, and through a loop variable
 			fns := []string{"双", "和", "层", "偶", "奇", "深抛"}
 			a, b := fns[g.pick(len(fns), "hf1")], fns[g.pick(len(fns), "hf2")]
@@ -317,6 +349,12 @@ func (g *gen) mainOps() []zn.Stmt {
 			out = append(out, show("托", &zn.MCall{Root: v(a), Chain: []zn.Call{{Name: "托", Args: []zn.Expr{v(b), g.numArg(1)}}}}), g.showObj(a), g.showObj(b))
 			g.labels["receiver-after-handled-deep-exception"] = true
 			g.twoReceivers = true
+		case 27, 28: // declarations inside branches, loop passes, handlers
+			out = append(out, show("block-decl", &zn.Call{Name: "嵌", Args: []zn.Expr{g.numArg(1)}}), show("block-decl-handler", &zn.Call{Name: "嵌救", Args: []zn.Expr{g.numArg(1)}}))
+			g.labels["declarations-inside-nested-blocks"] = true
+		case 29: // ... which do not outlive their block
+			g.labels["planted:block-declared-name-after-its-block"] = true
+			out = append(out, show("bad", &zn.Call{Name: "嵌漏", Args: []zn.Expr{num(1)}}))
 		case 19: // a method with inner declarations, called again and again
 			out = append(out, show("nested", &zn.Call{Name: "外", Args: []zn.Expr{g.numArg(1)}}), show("nested-again", &zn.Call{Name: "外", Args: []zn.Expr{num(3)}}))
 			g.labels["inner-declarations-called-twice"] = true
@@ -539,7 +577,7 @@ func TestCalls(t *testing.T) {
 		if g.twoReceivers {
 			labels = append(labels, "two-receivers")
 		}
-		nt := g.twoReceivers || g.labels["inner-declarations-called-twice"] || g.labels["in-place-scalar"] || g.labels["得到"] || g.labels["chain"] || g.labels["recursion>=3"]
+		nt := g.twoReceivers || g.labels["declarations-inside-nested-blocks"] || g.labels["inner-declarations-called-twice"] || g.labels["in-place-scalar"] || g.labels["得到"] || g.labels["chain"] || g.labels["recursion>=3"]
 		h.R.Case(t, "calls", src, s, labels, nt, fails)
 	})
 }
